@@ -244,6 +244,81 @@ def gen_cases(ck):
     return cases
 
 
+def big_upload_pairs(ck):
+    """Inputs far above the hook limit, on the harness built without the cfg: client 0 uploads a call of
+    70 KiB / 1.2 MiB (and calls whose frame is exactly 65536, 65792, 131072 bytes long, i.e. bursts that
+    fill the 256-byte-stepped read buffer to the brim and end in NUL) in pieces while client 1 makes calls
+    between the pieces.  Reference: the reply does not depend on the padding -- the same scenario with a
+    one-byte padding must give every connection exactly the same writes."""
+    rng = ck.rng
+    quick = ck.tier == "quick"
+    pairs = []
+    sizes = [(70 * 1024 + 13, 8 * 1024), (65536, 65536), (65536, 4096), (65792, 65792), (65792, 10000),
+             (131072, 131072), (131072, 30000)]
+    sizes += [(1200 * 1024 + 7, 64 * 1024)] if quick else [(1200 * 1024 + 7, 64 * 1024), (1200 * 1024, 100000),
+                                                          (1048576 + 256, 65536), (262144, 262144)]
+    for total, piece in sizes:
+        for other_active in (True, False):
+            tags = sg.Tags()
+            t_big, t_after, t_after2 = tags.next(), tags.next(), tags.next()
+            small_calls = [sg.wire([sg.call("Echo", 1, tags.next(), v=j)]) for j in range(40)]
+
+            def script(frame):
+                data = frame + b"\0"
+                chunks = [data[i:i + piece] for i in range(0, len(data), piece)] if len(data) > 200 else [data]
+                ev = [["n", 0], ["n", 1], ["p"], ["a", 0, sg.wire([sg.call("Count", 0, tags.n + 100)]).hex()], ["p"]]
+                n_pieces = max(1, (total + piece - 1) // piece)
+                j = 0
+                for i in range(n_pieces):
+                    if len(chunks) == n_pieces:
+                        ev.append(["a", 0, chunks[i].hex()])
+                    elif i == n_pieces - 1:
+                        ev.append(["a", 0, data.hex()])        # the small twin: everything with the last piece
+                    if other_active and j < len(small_calls):
+                        ev.append(["a", 1, small_calls[j].hex()])
+                        j += 1
+                    ev.append(["p"])
+                ev += [["a", 0, sg.wire([sg.call("Echo", 0, t_after, v=2), sg.call("Count", 0, t_after2)]).hex()],
+                       ["a", 1, small_calls[-1].hex()], ["p"], ["p"]]
+                return ev
+            big = {"script": script(sg.big_call(0, t_big, total)), "hyp": [], "tag": "big_upload", "nohook": True,
+                   "info": {"frame_bytes": total, "piece": piece, "other_client_active": other_active}}
+            small = {"script": script(sg.big_call(0, t_big, 80)), "hyp": [], "tag": "big_upload_small_twin",
+                     "nohook": True, "info": {"twin_of": total}}
+            pairs.append((big, small))
+    return pairs
+
+
+def check_big_uploads(ck, pairs):
+    flat = [c for p in pairs for c in p]
+    res = sg.run_nohook(ck, flat)
+    if res is None:
+        return 0
+    n = 0
+    for (big, small), rb, rs in zip(pairs, res[0::2], res[1::2]):
+        slim = dict(big, script=[e if e[0] != "a" or len(e[2]) < 400 else ["a", e[1], e[2][:200] + "...(%d bytes)" % (len(e[2]) // 2)]
+                                 for e in big["script"]])
+        msg = None
+        if rb.get("panic") or rb.get("crash"):
+            msg = "Server::run panicked or exceeded its budget: %s" % (rb.get("why") or "no result")[:200]
+        elif rb.get("sleeps"):
+            msg = "Server::run went to sleep although it could make progress: %s" % "; ".join(rb["sleeps"][:2])
+        elif not (rs.get("panic") or rs.get("crash")):
+            for k in (0, 1):
+                if sg.writes_of(rb, k) != sg.writes_of(rs, k) or k in sg.dropped(rb):
+                    msg = ("connection %d got %d replies with the large upload present, %d with the same call "
+                           "without padding (or was dropped)" % (k, len(sg.writes_of(rb, k)), len(sg.writes_of(rs, k))))
+                    break
+        if msg and n < 5:
+            n += 1
+            ck.violation("production buffer sizes: " + msg + " [big_upload %s]" % big["info"],
+                         {"case": big if len(json.dumps(big)) < 400000 else slim, "generator": big["info"],
+                          "impl_trace": sg.pretty_trace(rb)[-12:] if "polls" in rb else rb},
+                         tag="big%d" % big["id"])
+    ck.cov["big_upload_pairs_without_hook_cfg"] = len(pairs)
+    return n
+
+
 def main():
     ck = Check(PID)
     step, limit = sg.consts(ck)
@@ -254,6 +329,14 @@ def main():
         cases = [rp["case"]] if "case" in rp else []
     else:
         cases = gen_cases(ck)
+    big = [c for c in cases if c.get("nohook")]
+    cases = [c for c in cases if not c.get("nohook")]
+    if not ck.replay:
+        check_big_uploads(ck, big_upload_pairs(ck))
+    elif big:
+        # replay of a big_upload case: run it with its small twin regenerated from the generator parameters
+        check_big_uploads(ck, [p for p in big_upload_pairs(ck) if p[0]["info"] == big[0].get("info")] or
+                          [(big[0], dict(big[0]))])
     out = sg.run_cases(ck, cases, step, limit)
     n_viol = 0
     for c, r, code in sorted(out, key=lambda x: (0 if x[2] & 2 else 1, x[0]["id"])):
